@@ -55,7 +55,7 @@ class Run:
         open(os.path.join(hb, "go.mod"), "w").write(tmpl)
         shutil.copy(os.path.join(REPO, "go.sum"), hb)
         env = dict(os.environ, **GOENV)
-        cover = ["-cover", "-coverpkg=github.com/brocaar/lorawan/..."] if os.environ.get("VERIF_COVER") else []
+        cover = ["-cover", "-coverpkg=verif/harness,github.com/brocaar/lorawan/..."] if os.environ.get("VERIF_COVER") else []
         p = subprocess.run(["go", "build", "-tags", "verif"] + cover + ["-o", os.path.join(hb, "drv"), "."], cwd=hb, env=env,
                            stdout=subprocess.PIPE, stderr=subprocess.STDOUT, text=True)
         if p.returncode != 0:
@@ -65,7 +65,7 @@ class Run:
     # ---- TLC ----------------------------------------------------------------------------------
     def tlc(self, module, cfg=None, env=None, workers=1, xmx="3g", timeout=3600, extra=()):
         md = tempfile.mkdtemp(prefix="md-", dir=self.scratch)
-        cmd = ["java", "-XX:+UseParallelGC", "-XX:ParallelGCThreads=2", "-Xss64m", "-Xmx" + xmx, "-cp", JAR, "tlc2.TLC",
+        cmd = ["java", "-XX:+UseParallelGC", "-XX:ParallelGCThreads=2", "-Xss64m", "-Xmx" + xmx, "-Djava.io.tmpdir=" + md, "-cp", JAR, "tlc2.TLC",
                "-workers", str(workers), "-metadir", md, "-config", cfg or (module + ".cfg")] + list(extra) + [module + ".tla"]
         e = dict(os.environ)
         e.update(env or {})
